@@ -201,6 +201,21 @@ def check_metamorphic(short, inum, t, data):
         changed = command.from_frame(frame.ForwardFrame(24, v_di), dev_inst_map=grow)
         if describe(changed)["itype"] != ((t + 1) % 32 if isinstance(t, int) else 3):
             out.append(("C12:map-growth-ignored", "%s: after the entry was replaced the frame still decodes as %r" % (where, describe(changed))))
+        # a map object of the program's own: a DeviceInstanceTypeMapper subclass that answers get_type() by rule
+        # (every instance of this device has type t) instead of from recorded entries
+        from dali import address as _address
+
+        class ByRule(DeviceInstanceTypeMapper):
+            def get_type(self, *, short_address, instance_number):
+                sa = short_address.address if isinstance(short_address, _address.DeviceShort) else short_address
+                return t if sa == short else None
+        ruled = command.from_frame(frame.ForwardFrame(24, v_di), dev_inst_map=ByRule())
+        if describe(ruled) != describe(via_map):
+            out.append(("C12:map-object-not-asked-through-get_type", "%s: a mapper subclass whose get_type() says %r gives %r, "
+                        "expected %r" % (where, t, describe(ruled), describe(via_map))))
+        rr = amb.retry_decode(ByRule())
+        if rr is None or describe(rr) != describe(via_map):
+            out.append(("C12:map-object-not-asked-through-get_type", "%s: retry_decode with such a mapper gives %r" % (where, rr and describe(rr))))
         # the devicetype argument belongs to 16-bit frames: "ignored for all other frame lengths"
         for dt in (1, 6, 8, 255):
             w = command.from_frame(frame.ForwardFrame(24, v_di), devicetype=dt, dev_inst_map=m)
